@@ -238,6 +238,10 @@ def r17_3(ctx):
 
 @rule("R17.4", "C17", "dangling else binds to the nearest if", min_instances=1)
 def r17_4(ctx):
+    dangling_else_checks(ctx)
+
+
+def dangling_else_checks(ctx):
     gm = get_grammar(ctx.env)
     alts = gm.rules.get("selection_stmt", [])
     no_else = next((a.order for a in alts if [s[0] for s in a.symbols][:1] == ["IF"] and "ELSE" not in [s[0] for s in a.symbols]), None)
